@@ -114,8 +114,15 @@ def check_class(rep, name, pm, r, ty, stats, samples):
         rep.notes.append(f"{where}: reference cannot lay out: {e}")
         return
     if ev.always_fails is not None and ev.always_fails[0] == "LengthError":
-        rep.add("C13|python|parse|always-rejects", f"{ty}.parse raises LengthError for every input (fields after an open-ended "
-                f"array)", where)
+        cause, why = "other", "a length guard that can never be satisfied precedes the remaining fields"
+        for i, w in enumerate(want):
+            later = want[i + 1:]
+            if w["k"] == "payload" and w["shape"].get("k") == "rest" and any(x["k"] == "array" and x.get("pad") for x in later):
+                cause, why = ("payload-tail|padded-array", "the octets reserved after the open-ended payload count a padded "
+                              "array at its unpadded size, so the padded region never fits")
+            elif w["k"] == "array" and w["shape"].get("k") == "rest" and not w.get("pad") and later:
+                cause, why = "after-open-array", "fields after an open-ended array"
+        rep.add(f"C13|python|parse|always-rejects|{cause}", f"{ty}.parse raises LengthError for every input ({why})", where)
     else:
         c = DCmp(rep, where, r, ty, ev, prop="C13")
         c.side = "py"
